@@ -3,7 +3,7 @@
     the seeks are measured from. *)
 From Coq Require Import ZArith QArith List Bool Lia.
 From KV Require Import Base.Outcome Base.Num C19.Model C06.Model.
-From KV Require Import C04.Transport C04.Resampler C04.StaticData C04.StaticSound C04.ProofsTransport.
+From KV Require Import C04.Transport C04.TransportSeek C04.Resampler C04.StaticData C04.StaticSound C04.ProofsTransport C04.ProofsSeek.
 Import ListNotations.
 Local Open Scope Z_scope.
 
@@ -217,7 +217,7 @@ Section Sound.
   Definition sstep (s : ssound T A) (o : sop) : outcome (ssound T A) :=
     match o with
     | SUpdate => update_position A azero fuel s
-    | SSeekIndex i => seek_to_index A azero fuel s i
+    | SSeekIndex i => seek_to_index A azero s i
     | SSetLoop lr => Ok (set_tr A s (transport_set_loop_region (s_tr s) lr))
     end.
   Fixpoint srun (s : ssound T A) (ops : list sop) : outcome (ssound T A) :=
@@ -228,16 +228,16 @@ Section Sound.
   Definition wf_sop (o : sop) : Prop :=
     match o with
     | SUpdate => True
-    | SSeekIndex i => 0 <= i /\ i < Z.of_nat fuel
+    | SSeekIndex i => 0 <= i <= u64_max
     | SSetLoop lr => req_loop B lr
     end.
 
-  Lemma seek_to_index_safe : forall s i, SInv s -> 0 <= i -> i < Z.of_nat fuel ->
-    exists s', seek_to_index A azero fuel s i = Ok s' /\ SInv s'.
+  Lemma seek_to_index_safe : forall s i, SInv s -> 0 <= i <= u64_max ->
+    exists s', seek_to_index A azero s i = Ok s' /\ SInv s'.
   Proof.
-    intros s i Hs Hi0 Hif. pose proof Hs as (Hok & HNB & HBm & Hfuel & Hwf).
+    intros s i Hs Hi. pose proof Hs as (Hok & HNB & HBm & Hfuel & Hwf).
     unfold seek_to_index. fold (NS s).
-    destruct (seek_safe fuel (NS s) B HNB HBm Hfuel (s_tr s) i Hwf Hi0 Hif) as (t' & Ht' & Hwf' & _).
+    destruct (seek_safe (NS s) B HNB HBm (s_tr s) i Hwf Hi) as (t' & Ht' & Hwf' & _).
     rewrite Ht'. cbn [obind].
     assert (Hs' : SInv (set_tr A s t')).
     { unfold SInv, NS. cbn [set_tr s_src s_slice s_tr].
@@ -249,6 +249,35 @@ Section Sound.
     - eexists; split; [reflexivity | exact Hs'].
   Qed.
 
+  (** F24: a seek to an index inside a sound without a loop region — whether its transport is still
+      playing or has already reached the end, as long as the sound has not gone Stopped — leaves the
+      transport PLAYING at that index and pushes that very source frame into the window: the sound
+      plays on from the target *)
+  Lemma seek_inside_resumes : forall s i, SInv s -> t_loop (s_tr s) = None -> s_stopped s = false ->
+    0 <= i < NS s ->
+    seek_to_index A azero s i =
+      Ok (set_rs A (set_tr A s {| t_pos := i; t_loop := None; t_playing := true |})
+            (push_frame azero (s_rs s) (Some (src_get (s_src s) (soff (s_slice s) + i))) i)) /\
+    SInv (set_rs A (set_tr A s {| t_pos := i; t_loop := None; t_playing := true |})
+            (push_frame azero (s_rs s) (Some (src_get (s_src s) (soff (s_slice s) + i))) i)).
+  Proof.
+    intros s i Hs Hl Hst Hi. pose proof Hs as (Hok & HNB & HBm & Hfuel & Hwf).
+    unfold seek_to_index. fold (NS s). rewrite (seek_inside_plays (s_tr s) i (NS s) Hl Hi). cbn [obind].
+    set (s1 := set_tr A s {| t_pos := i; t_loop := None; t_playing := true |}).
+    assert (Hs1 : SInv s1).
+    { unfold SInv, NS, s1. cbn [set_tr s_src s_slice s_tr].
+      split; [exact Hok|]; split; [exact HNB|]; split; [exact HBm|]; split; [exact Hfuel|].
+      split; [cbn [t_pos]; lia|]. split; [cbn [t_pos t_playing]; intros _; lia | exact I]. }
+    assert (Hadv : is_advancing A s1 = true) by (unfold is_advancing, s1; cbn [set_tr s_stopped]; rewrite Hst; reflexivity).
+    rewrite Hadv. destruct (push_reads_inside s1 Hs1) as [Hp _]. rewrite Hp.
+    assert (Hpushed : pushed s1 = Some (src_get (s_src s) (soff (s_slice s) + i))).
+    { unfold pushed, s1, NS. cbn [set_tr s_tr s_src s_slice t_playing t_pos].
+      unfold NS in Hi. destruct (Z.ltb_spec i (num_frames (s_src s) (s_slice s))); [reflexivity | lia]. }
+    rewrite Hpushed. unfold s1 at 2 3. cbn [set_tr s_rs s_tr t_pos]. split; [reflexivity|].
+    destruct Hs1 as (a & b & c & d & e). unfold SInv, NS. cbn [set_rs set_tr s_src s_slice s_tr] in *.
+    split; [exact a|]; split; [exact b|]; split; [exact c|]; split; [exact d | exact e].
+  Qed.
+
   Lemma srun_safe : forall ops s, SInv s -> Forall wf_sop ops -> exists s', srun s ops = Ok s' /\ SInv s'.
   Proof.
     induction ops as [|o ops IH]; intros s Hs Hops; [exists s; split; [reflexivity | exact Hs]|].
@@ -256,7 +285,7 @@ Section Sound.
     assert (H1 : exists s1, sstep s o = Ok s1 /\ SInv s1).
     { destruct o as [|i|lr]; cbn [sstep].
       - destruct (update_position_spec s Hs) as (t' & _ & _ & _ & Hu & Hi). eauto.
-      - destruct Ho. apply seek_to_index_safe; assumption.
+      - apply seek_to_index_safe; assumption.
       - eexists; split; [reflexivity|]. destruct Hs as (a & b & c & d & e0 & e1 & e2).
         unfold SInv, NS. cbn [set_tr s_src s_slice s_tr transport_set_loop_region t_pos t_playing t_loop].
         split; [exact a|]; split; [exact b|]; split; [exact c|]; split; [exact d|].
